@@ -240,3 +240,104 @@ def singleton(nthreads=2):
     sc.programs.append(c.finish())
   sc.info = {"nthreads": nthreads, "lock_attrs": [k for k, v in attrs.items() if isinstance(v, M.MRLock)]}
   return sc
+
+
+# ---- thread-safe attributes (C27) ----------------------------------------------------------------------------------
+TSA_CONST = {0: 1, 1: 2, 2: 4}          # per thread: the constant its statement uses
+TSA_ASSIGN = {0: 9, 1: 10, 2: 12}
+
+
+def tsa_statement_text(kind, t):
+  """the source line of the statement thread t executes, taken from the real functions the replay runs"""
+  import inspect
+  from vf.e2 import tsa_statements as S
+  fn = getattr(S, "%s_%d" % (kind, t))
+  return inspect.getsource(fn).splitlines()[1] + "\n"
+
+
+def tsa(kinds=("aug", "assign")):
+  """threads executing one statement each on the same thread-safe attribute of the same instance (C27);
+  kinds[t] in {'read', 'assign', 'aug'}: the descriptor calls CPython makes for `v = o.x`, `o.x = c`, `o.x += c`"""
+  import ast as _ast
+  import inspect
+  import threading
+  import miros.thread_safe_attributes as tsmod
+  sc = Scenario("tsa")
+  real = tsmod.ThreadSafeAttribute(initial_value=0, name="x")
+  # attributes assigned inside __get__/__set__ are shared mutable state of the descriptor
+  written = set()
+  for fname in ("__get__", "__set__"):
+    tree = _ast.parse(textwrap.dedent(inspect.getsource(getattr(tsmod.ThreadSafeAttribute, fname))))
+    for n in _ast.walk(tree):
+      if isinstance(n, (_ast.Assign, _ast.AugAssign)):
+        for tg in (n.targets if isinstance(n, _ast.Assign) else [n.target]):
+          if isinstance(tg, _ast.Attribute) and isinstance(tg.value, _ast.Name) and tg.value.id == "self":
+            written.add(tg.attr)
+  special = {}
+  for a in sorted(written):
+    cur = getattr(real, a, None)
+    init = NONE if cur is None else (1 if cur is True else (0 if cur is False else cur))
+    if not isinstance(init, int):
+      raise TranslationError("descriptor attribute %s has an initial value that is not modelled: %r" % (a, cur))
+    special[a] = sc.add(M.MAttr("desc." + a, init))
+  attrs = bind_instance(sc, real, "desc", special)
+  for a in written:
+    attrs.setdefault(a, special[a])
+  desc = PyObj(tsmod.ThreadSafeAttribute, attrs, "descriptor")
+  vals = sc.add(M.MDict("vals", 1))
+  sc.elem_typ["vals"] = "str"
+  inst = PyObj(object, {"__dict__": PyObj(dict, {}, "instance.__dict__", model=vals)}, "instance")
+  texts = {}
+
+  def frame_line(comp):
+    return texts[comp.tid]
+  sc.modules["inspect"] = SNs({
+    "currentframe": SI(lambda comp, a, k: SNs({"f_back": SNs({}, "frame")}, "frame")),
+    "getframeinfo": SI(lambda comp, a, k: ST([])),
+  }, "inspect")
+  sc.class_intrinsics.append((tsmod.FrameData, lambda comp, a, k: SNs({"lines": ST([SK(sc.strings.code(frame_line(comp)), frame_line(comp))])}, "FrameData")))
+  sc.modules["threading"] = SNs({"get_ident": SI(lambda comp, a, k: SK(comp.tid + 1, comp.tid + 1)),
+                                 "current_thread": SI(lambda comp, a, k: SK(comp.tid + 1, comp.tid + 1))}, "threading")
+  sc.modules["re"] = SNs({}, "re")
+  sc.by_identity.append((threading.get_ident, SI(lambda comp, a, k: SK(comp.tid + 1, comp.tid + 1))))
+
+  def real_predicate(name):
+    def f(comp, self_val, args, kwargs):
+      line = args[0]
+      if not isinstance(line, SK) or not isinstance(line.py, str):
+        raise TranslationError("%s on a line that is not static" % name)
+      return comp.lift(bool(getattr(real, name)(line.py)))
+    return f
+  sc.method_intrinsics[("ThreadSafeAttribute", "is_not_atomic")] = real_predicate("is_not_atomic")
+  sc.method_intrinsics[("ThreadSafeAttribute", "request_for_lock")] = real_predicate("request_for_lock")
+  src = """
+  def t_read(desc, inst):
+    v = desc.__get__(inst, None)
+    record(v)
+
+  def t_assign(desc, inst, c):
+    desc.__set__(inst, c)
+
+  def t_aug(desc, inst, c):
+    v = desc.__get__(inst, None)
+    desc.__set__(inst, v + c)
+  """
+  for t, kind in enumerate(kinds):
+    texts[t] = tsa_statement_text(kind, t)
+    sc.ghost["read.%d" % t] = 0
+    c = Compiler(sc, t, "%s%d" % (kind, t))
+
+    def record(comp, args, kwargs, _t=t):
+      x = comp.intx(args[0])
+      comp.ghost(lambda B, st, tid, _x=x: {"read.%d" % _t: ir.evint(_x, st, B)}, "record", uses=[x])
+      return SK(NONE, None)
+    args = [SP(desc), SP(inst)]
+    if kind == "assign":
+      args.append(SK(TSA_ASSIGN[t], TSA_ASSIGN[t]))
+    elif kind == "aug":
+      args.append(SK(TSA_CONST[t], TSA_CONST[t]))
+    c.call_function(SF(node=driver(src, "t_" + kind), closure={"record": SI(record)}, qualname="scenario.t_" + kind, globs={}), args, {})
+    sc.programs.append(c.finish())
+  sc.info = {"kinds": list(kinds), "lock_attrs": [k for k, v in attrs.items() if isinstance(v, M.MRLock)],
+             "shared_attrs": sorted(written), "texts": texts, "lock_names": ["desc." + k for k, v in attrs.items() if isinstance(v, M.MRLock)]}
+  return sc
